@@ -42,6 +42,16 @@ for d in sorted(glob.glob(os.path.join(ROOT, 'seeded', '*'))):
     lines.append('| %s | %s | %s | %s | %s | %s%s |' % (os.path.basename(d), m.get('breaks', ''), m.get('title', ''), m.get('needs', ''),
                  'yes' if m.get('confirmed') else 'NO', ', '.join(caught) or '-', ('; not by ' + ', '.join(missed)) if missed else ''))
 lines.append('')
+lines.append('### 13.5c Behaviour-preserving refactorings (generated from `harmless/*/meta.json`; no check may report them)\n')
+lines.append('| Patch | Region | What was rewritten | Pinned tests | Quick checks that stayed quiet | Alarms |')
+lines.append('|---|---|---|---|---|---|')
+for d in sorted(glob.glob(os.path.join(ROOT, 'harmless', '*'))):
+    mp = os.path.join(d, 'meta.json')
+    if not os.path.exists(mp): continue
+    m = json.load(open(mp))
+    lines.append('| %s | %s | %s | %s | %d of %d | %s |' % (os.path.basename(d), m.get('region', ''), m.get('what', '').replace('|', '/'), m.get('tests', ''),
+                 len(m.get('quiet', [])), len(m.get('quiet', [])) + len(m.get('alarms', [])), ', '.join(m.get('alarms', [])) or 'none'))
+lines.append('')
 k = json.load(open(os.path.join(ROOT, 'known_findings.json')))
 lines.append('### 13.4 Findings (generated from `known_findings.json`)\n')
 lines.append('| Id | Status | Properties | Repair commit | What failed |')
